@@ -4,9 +4,9 @@ use crate::support::*;
 use educe::Educe;
 use core::cmp::Ordering;
 #[derive(Educe)]
-#[educe(PartialEq)]
-pub struct T { #[educe(PartialEq(method("m_eq")))] state: A<0> }
-pub fn values() -> Vec<T> { vec![T { state: A(0) }, T { state: A(1) }, T { state: A(7) }] }
-pub fn show(x: &T) -> String { #[allow(unused_variables)] match x { T { state: p0 } => format!("T({})", sv(p0)) } }
-pub fn o_eq(a: &T, b: &T) -> bool { match (a, b) { (T { state: a0 }, T { state: b0 }) => m_eq(a0, b0) } }
+#[educe(PartialEq, Eq)]
+pub enum T { Some, V1 }
+pub fn values() -> Vec<T> { vec![T::Some, T::V1] }
+pub fn show(x: &T) -> String { #[allow(unused_variables)] match x { T::Some => format!("Some()"), T::V1 => format!("V1()") } }
+pub fn o_eq(a: &T, b: &T) -> bool { match (a, b) { (T::Some, T::Some) => true, (T::V1, T::V1) => true, _ => false } }
 pub fn run(out: &mut Out) { let vs = values(); for a in &vs { for b in &vs { let e = o_eq(a, b); out.check((a == b) == e, "eq_24", "eq", || format!("{} == {} expected {}", show(a), show(b), e)); out.check((a != b) == !e, "eq_24", "ne", || format!("{} != {} expected {}", show(a), show(b), !e)); } } }
